@@ -16,7 +16,8 @@ TECHNIQUE = ('exhaustive enumeration of approximation settings (method, form, st
 RULE = ('settings = {fd forward, fd backward, fd central, cs} x step {1e-2, 1e-4} x step_calc {abs, rel, '
         'rel_avg, rel_element, rel_legacy} x level {component partials, group approx_totals} x colored '
         '{no, yes}; models = 1-deviation ball (quick) / 2 (thorough) over topology, component kinds, '
-        'wiring, units, a zero entry in the perturbed variable, mode; non-trivial = a finite-difference '
+        'wiring, units, a zero entry in the perturbed variable, mode, coupled cycle under NLBGS/Newton; '
+        'non-trivial = a finite-difference '
         'setting whose truncation error is non-zero, or a colored approximation, or a non-abs '
         'step_calc; each configuration is enumerated once')
 LEVEL_TEXT = ('The IR functions are polynomials, so applying the documented difference formula with the '
@@ -28,7 +29,11 @@ LEVEL_TEXT = ('The IR functions are polynomials, so applying the documented diff
 LEVEL_NOTE = ('step semantics as documented in declare_partials/approx_totals (abs; rel_avg = mean '
               'absolute value; rel_element = elementwise; rel_legacy = norm; minimum_step floor); bounded '
               'model sizes; round-off allowance 200*eps*max|f|/h.')
-ASSUMPTIONS = ['the bound form of the property (|error| <= truncation bound) is replaced by equality with '
+ASSUMPTIONS = ['complex step through a NonlinearBlockGS iteration is not compared: the solver only '
+               're-converges the imaginary part as far as its real-norm test takes it (design of '
+               'cs_reconverge), which is not "complex-safe code"; Newton (exact for the linear imaginary '
+               'part) is compared',
+               'the bound form of the property (|error| <= truncation bound) is replaced by equality with '
                'the difference quotient of the exact function, which is tighter and equivalent for '
                'polynomials when the documented step is used']
 MIN_NONTRIVIAL = {'quick': 400, 'thorough': 2000}
@@ -38,13 +43,14 @@ STEPS = [1e-2, 1e-4]
 STEP_CALCS = ['abs', 'rel', 'rel_avg', 'rel_element', 'rel_legacy']
 
 DIMS = collections.OrderedDict([
-    ('topo', ['two', 'single', 'chain', 'fanin']),
+    ('topo', ['two', 'single', 'chain', 'fanin', 'cycle_tail', 'cycle2']),
     ('kinds', ['allquad', 'lin', 'quadimp']),
     ('wiring', ['plain', 'conn_list', 'conn_dup', 'conn_2d_tuple', 'prom2', 'auto']),
     ('units', ['none', 'm_cm', 'degC_degF']),
     ('zero', [False, True]),
     ('mode', ['fwd', 'rev']),
     ('hier', ['flat', 'allG']),
+    ('nl', ['NLBGS', 'Newton']),       # solver of the cycle (cyclic topologies only)
 ])
 
 
@@ -54,14 +60,16 @@ def cases(tier, seed):
     k = 1 if tier == 'quick' else 2
     models_ = explore.ball(DIMS, k)
     i = 0
-    for m in models_:
+    for mi, m in enumerate(models_):
         for level in ('comp', 'group'):
-            for (method, form) in METHODS:
+            for fi, (method, form) in enumerate(METHODS):
                 for step in (STEPS if method == 'fd' else [None]):
-                    for sc in (STEP_CALCS if method == 'fd' else ['abs']):
+                    for si, sc in enumerate(STEP_CALCS if method == 'fd' else ['abs']):
                         for colored in (False, True):
-                            i += 1
-                            if tier == 'quick' and sc not in ('abs', 'rel_element') and i % 2:
+                            # quick: the three scalar relative step rules on alternating
+                            # (model, form) pairs; colored and uncolored always both kept
+                            if tier == 'quick' and sc not in ('abs', 'rel_element') and \
+                                    (mi + fi + si) % 2:
                                 continue
                             c = dict(m)
                             c.update(level=level, method=method, form=form, step=step, step_calc=sc,
@@ -121,8 +129,20 @@ def check_case(c):
         vio.append({'sig': 'C12:%s:%s' % (what, cls), 'case': c, 'msg': '%s [%s]: %s' % (what, cls, msg)})
     kinds = {'allquad': models.KIND_PROFILES['allquad'], 'lin': {},
              'quadimp': {'c1': 'quad', 'c2': 'imp', 'c3': 'quad'}}[c['kinds']]
+    cyc = c['topo'].startswith('cycle')
+    if not cyc and c.get('nl', 'NLBGS') != 'NLBGS':
+        return {'evals': 0, 'outcome': 'skipped:solver choice only matters for a cycle', 'violations': []}
+    if cyc and c['level'] == 'group' and c['method'] == 'cs' and c.get('nl', 'NLBGS') == 'NLBGS':
+        # NLBGS 'reconverges' a complex step from a 1e-10 nudge of the outputs: the imaginary part is
+        # only reduced by the same factor as the real residual (measured 1e-5 relative error at solver
+        # tolerance 1e-13).  A truncated fixed-point iteration is not complex-safe code in the sense
+        # of the statement, so the round-off oracle does not apply.
+        return {'evals': 0, 'outcome': 'skipped:complex step through a block Gauss-Seidel iteration',
+                'violations': []}
     cfg = {'topo': c['topo'], 'hier': c['hier'], 'wiring': c['wiring'], 'units': c['units'],
            'palette': c.get('palette', 0), 'sparse': bool(c['colored']), 'mode': c['mode']}
+    if cyc:
+        cfg.update(nl=c.get('nl', 'NLBGS'), ln='Direct')
     spec, why = models.spec_from_config(cfg)
     if spec is None:
         return {'evals': 0, 'outcome': 'skipped:' + why, 'violations': []}
@@ -148,7 +168,8 @@ def check_case(c):
         partials = {'c1': dict(opts)}
     spec = models.make(topology=c['topo'], hier=c['hier'], kinds=kinds, partials=partials,
                        palette=c.get('palette', 0), units=units, first=first, p_shape=w['p_shape'],
-                       sparse=bool(c['colored']))
+                       sparse=bool(c['colored']), nl=c.get('nl', 'NLBGS') if cyc else 'RunOnce',
+                       ln='Direct' if cyc else 'RunOnce')
     spec['force_alloc_complex'] = True
     if c['zero']:
         src = (spec['ivcs'] or spec['autos'])
